@@ -28,15 +28,87 @@ static int op_radlen(int argc, char **argv, FILE *out) {
     return 1;
 }
 
-static int op_prefixmatch(int argc, char **argv, FILE *out) {
-    int la, lb, len;
-    uint8_t *a, *b;
-    if (argc != 3 || !(a = hx(argv[0], &la)) || !(b = hx(argv[1], &lb)))
+/* findconf <type> <serverp> <fam 4|6> <addrhex> <port> { C<type> | E<fam>:<addrhex>:<prefix>:<port>:<hosttext> }...
+   builds the static clconfs/srvconfs list through the REAL addhostport()+resolvehostports()
+   and calls the real find_clconf / find_srvconf.  -> idx | none | cfgerr */
+static int op_findconf(int argc, char **argv, FILE *out) {
+    struct list *confs = list_create(), *saved_cl = clconfs, *saved_srv = srvconfs;
+    struct clsrvconf *cur = NULL, *res;
+    struct sockaddr_storage ss;
+    int type, serverp, fam, la, port, i, idx = -1, n = 0, bad = 0;
+    uint8_t *a;
+    struct list_node *e;
+    if (argc < 5)
         return 0;
-    len = atoi(argv[2]);
-    fprintf(out, "%d", prefixmatch(a, b, (uint8_t)len) ? 1 : 0);
+    type = atoi(argv[0]);
+    serverp = atoi(argv[1]);
+    fam = atoi(argv[2]);
+    a = hx(argv[3], &la);
+    port = atoi(argv[4]);
+    memset(&ss, 0, sizeof(ss));
+    if (fam == 4 && la == 4) {
+        struct sockaddr_in *s4 = (struct sockaddr_in *)&ss;
+        s4->sin_family = AF_INET;
+        memcpy(&s4->sin_addr, a, 4);
+        s4->sin_port = htons(port);
+    } else if (fam == 6 && la == 16) {
+        struct sockaddr_in6 *s6 = (struct sockaddr_in6 *)&ss;
+        s6->sin6_family = AF_INET6;
+        memcpy(&s6->sin6_addr, a, 16);
+        s6->sin6_port = htons(port);
+    } else
+        return 0;
     free(a);
-    free(b);
+    for (i = 5; i < argc; i++) {
+        if (argv[i][0] == 'C') {
+            cur = calloc(1, sizeof(*cur));
+            cur->type = atoi(argv[i] + 1);
+            list_push(confs, cur);
+        } else if (argv[i][0] == 'E' && cur) {
+            char *txt = argv[i], *hp[2];
+            int k;
+            for (k = 0; k < 4 && txt; k++)
+                txt = strchr(txt + 1, ':');
+            if (!txt)
+                return 0;
+            hp[0] = txt + 1;
+            hp[1] = NULL;
+            if (!addhostport(&cur->hostports, hp, "1812", 1))
+                bad = 1;
+        } else
+            return 0;
+    }
+    for (e = list_first(confs); e && !bad; e = list_next(e)) {
+        cur = (struct clsrvconf *)e->data;
+        if (cur->hostports && !resolvehostports(cur->hostports, AF_UNSPEC, SOCK_DGRAM))
+            bad = 1;
+    }
+    if (bad)
+        fputs("cfgerr", out);
+    else {
+        if (serverp) {
+            srvconfs = confs;
+            res = find_srvconf(type, (struct sockaddr *)&ss, NULL);
+        } else {
+            clconfs = confs;
+            res = find_clconf(type, (struct sockaddr *)&ss, NULL, NULL);
+        }
+        for (e = list_first(confs); e; e = list_next(e), n++)
+            if (e->data == res)
+                idx = n;
+        if (res)
+            fprintf(out, "%d", idx);
+        else
+            fputs("none", out);
+    }
+    clconfs = saved_cl;
+    srvconfs = saved_srv;
+    while ((cur = list_shift(confs))) {
+        if (cur->hostports)
+            freehostports(cur->hostports);
+        free(cur);
+    }
+    list_destroy(confs);
     return 1;
 }
 
@@ -146,7 +218,7 @@ static int op_ascii(int argc, char **argv, FILE *out) {
 int h_rsp_op(const char *op, int argc, char **argv, FILE *out) {
     if (!strcmp(op, "decttl")) return op_decttl(argc, argv, out);
     if (!strcmp(op, "radlen")) return op_radlen(argc, argv, out);
-    if (!strcmp(op, "prefixmatch")) return op_prefixmatch(argc, argv, out);
+    if (!strcmp(op, "findconf")) return op_findconf(argc, argv, out);
     if (!strcmp(op, "choose")) return op_choose(argc, argv, out);
     if (!strcmp(op, "pwdrecrypt")) return op_pwdrecrypt(argc, argv, out);
     if (!strcmp(op, "msmpprecrypt")) return op_msmpprecrypt(argc, argv, out);
